@@ -1,5 +1,7 @@
 import MidnightZK.Model.ModArith
 import MidnightZK.Model.C04.Decomp
+import MidnightZK.Model.C04.Vector
+import MidnightZK.Model.C04.Map
 /-!
 # C04 — interpreter of gadget programs
 
@@ -43,6 +45,16 @@ def RunSt.push (r : RunSt F) (ty : Ty) (c : Cell) (s : St F) : RunSt F :=
 
 def RunSt.pushMany (r : RunSt F) (ty : Ty) (cs : List Cell) (s : St F) : RunSt F :=
   { st := s, vars := cs.foldl (fun a c => a.push ⟨ty, c⟩) r.vars }
+
+/-- A vector of shape `(M, _)` is flattened into `M + 1` variables: the buffer cells, then the
+length cell (harness: `vecops.rs: push_vec`, through the hook `AssignedVector::verif_parts`). -/
+def RunSt.vecAt (r : RunSt F) (i M : Nat) : Option VecCells := do
+  let buf ← (List.range M).mapM (fun j => (r.vars[i + j]?).map (·.cell))
+  let len ← (r.vars[i + M]?).map (·.cell)
+  pure ⟨buf, len⟩
+
+def RunSt.pushVec (r : RunSt F) (v : VecCells) (s : St F) : RunSt F :=
+  (r.pushMany .N v.buf s).push .N v.len s
 
 def optNat? (s : String) : Option (Option Nat) :=
   if s = "-" then some none else (parseNat? s).map some
@@ -407,6 +419,65 @@ def execOp (fi : FieldInfo) (ofNat : Nat → F) (r : RunSt F) (toks : List Strin
     if d = 0 then none else
     let ((_, rm), s) := divRem s (← cell a) d (← optNat? bound) (fi.p - 1)
     pure (r.push .N rm s)
+  -- ---- VectorGadget (vec/vector_gadget.rs); a vector is named by its first buffer variable
+  | ["vassign", m, a, n] => do
+    let (m, a, n) := (← parseNat? m, ← parseNat? a, ← parseNat? n)
+    if a = 0 ∨ m < a ∨ m < n then none else
+    let (v, s) := vecAssign s m; pure (r.pushVec v s)
+  -- `assign_with_filler`: the filler is a witness value only (same cells, same constraints)
+  | ["vassignf", m, a, n, _filler] => do
+    let (m, a, n) := (← parseNat? m, ← parseNat? a, ← parseNat? n)
+    if a = 0 ∨ m < a ∨ m < n then none else
+    let (v, s) := vecAssign s m; pure (r.pushVec v s)
+  | ["vresize", i, m, a, l] => do
+    let (i, m, a, l) := (← parseNat? i, ← parseNat? m, ← parseNat? a, ← parseNat? l)
+    if a = 0 ∨ l ≤ m ∨ l % a ≠ 0 then none else
+    let (v, s) := vecResize s (← r.vecAt i m) m l; pure (r.pushVec v s)
+  | ["vlimits", i, m, a] => do
+    let (i, m, a) := (← parseNat? i, ← parseNat? m, ← parseNat? a)
+    if a = 0 ∨ m < a then none else
+    let ((st, en), s) := vecGetLimits s (← r.vecAt i m) m a (fi.p - 1)
+    pure ((r.push .N st s).push .N en s)
+  | ["vpad", i, m, a] => do
+    let (i, m, a) := (← parseNat? i, ← parseNat? m, ← parseNat? a)
+    if a = 0 ∨ m < a then none else
+    let (fl, s) := vecPaddingFlag s (← r.vecAt i m) m a (fi.p - 1); pure (r.pushMany .B fl s)
+  | ["vtrim", i, m, a, n] => do
+    let (i, m, a, n) := (← parseNat? i, ← parseNat? m, ← parseNat? a, ← parseNat? n)
+    if a = 0 ∨ m < a ∨ m < n then none else
+    let (v, s) := vecTrimBeginning s (← r.vecAt i m) m a n fi.p; pure (r.pushVec v s)
+  | ["viseq", i, j, m, a] => do
+    let (i, j, m, a) := (← parseNat? i, ← parseNat? j, ← parseNat? m, ← parseNat? a)
+    if a = 0 ∨ m < a then none else
+    let (b, s) := vecIsEqual s (← r.vecAt i m) (← r.vecAt j m) m a (fi.p - 1); pure (r.push .B b s)
+  | ["visneq", i, j, m, a] => do
+    let (i, j, m, a) := (← parseNat? i, ← parseNat? j, ← parseNat? m, ← parseNat? a)
+    if a = 0 ∨ m < a then none else
+    let (b, s) := vecIsNotEqual s (← r.vecAt i m) (← r.vecAt j m) m a (fi.p - 1); pure (r.push .B b s)
+  | ["vaeq", i, j, m, a] => do
+    let (i, j, m, a) := (← parseNat? i, ← parseNat? j, ← parseNat? m, ← parseNat? a)
+    if a = 0 ∨ m < a then none else
+    pure { r with st := vecAssertEqual s (← r.vecAt i m) (← r.vecAt j m) m a (fi.p - 1) }
+  | ["vaneq", i, j, m, a] => do
+    let (i, j, m, a) := (← parseNat? i, ← parseNat? j, ← parseNat? m, ← parseNat? a)
+    if a = 0 ∨ m < a then none else
+    pure { r with st := vecAssertNotEqual s (← r.vecAt i m) (← r.vecAt j m) m a (fi.p - 1) }
+  | ["viseqf", i, m, a, cs] => do
+    let (i, m, a, cs) := (← parseNat? i, ← parseNat? m, ← parseNat? a, ← parseNatList? cs)
+    if a = 0 ∨ m < a ∨ m < cs.length then none else
+    let (b, s) := vecIsEqualToFixed s (← r.vecAt i m) m a (cs.map ofNat); pure (r.push .B b s)
+  | ["visneqf", i, m, a, cs] => do
+    let (i, m, a, cs) := (← parseNat? i, ← parseNat? m, ← parseNat? a, ← parseNatList? cs)
+    if a = 0 ∨ m < a ∨ m < cs.length then none else
+    let (b, s) := vecIsNotEqualToFixed s (← r.vecAt i m) m a (cs.map ofNat); pure (r.push .B b s)
+  | ["vaeqf", i, m, a, cs] => do
+    let (i, m, a, cs) := (← parseNat? i, ← parseNat? m, ← parseNat? a, ← parseNatList? cs)
+    if a = 0 ∨ m < a ∨ m < cs.length then none else
+    pure { r with st := vecAssertEqualToFixed s (← r.vecAt i m) m a (cs.map ofNat) }
+  | ["vaneqf", i, m, a, cs] => do
+    let (i, m, a, cs) := (← parseNat? i, ← parseNat? m, ← parseNat? a, ← parseNatList? cs)
+    if a = 0 ∨ m < a ∨ m < cs.length then none else
+    pure { r with st := vecAssertNotEqualToFixed s (← r.vecAt i m) m a (cs.map ofNat) }
   | _ => none
 
 /-- Split a token list at `;`. -/
@@ -420,6 +491,41 @@ def runOps (fi : FieldInfo) (ofNat : Nat → F) (r : RunSt F) : List (List Strin
   | o :: rest => do
     let r ← execOp fi ofNat r o
     runOps fi ofNat r rest
+
+/-- `MapGadget` operations (map/map_gadget.rs) with the harness's hash chip; the gadget's state
+(the cell of the current `succinct_repr`) is threaded through the program. `minit <k:v,...>`
+pushes the root cell, `mget <key var>` the value cell, `minsert <key var> <value var>` the new root
+cell. -/
+def execMapOp (fi : FieldInfo) (r : RunSt F) (root : Option Cell) (toks : List String) :
+    Option (RunSt F × Option Cell) := do
+  match toks with
+  | ["minit", _pairs] =>
+    let (c, s) := mapInit r.st
+    pure (r.push .N c s, some c)
+  | ["mget", k] =>
+    let key ← r.cellOf (← parseNat? k)
+    let (v, s) := mapGet toyHashE r.st key (← root) fi.numBits fi.halfP
+    pure (r.push .N v s, root)
+  | ["minsert", k, v] =>
+    let key ← r.cellOf (← parseNat? k)
+    let value ← r.cellOf (← parseNat? v)
+    let (nr, s) := mapInsert toyHashE r.st key value (← root) fi.numBits fi.halfP
+    pure (r.push .N nr s, some nr)
+  | _ => none
+
+def isMapName (name : String) : Bool := ["minit", "mget", "minsert"].contains name
+
+/-- Run a program that may contain map operations. -/
+def runOpsM (fi : FieldInfo) (ofNat : Nat → F) (r : RunSt F) (root : Option Cell) :
+    List (List String) → Option (RunSt F)
+  | [] => some r
+  | o :: rest =>
+    if isMapName (o.headD "") then do
+      let (r, root) ← execMapOp fi r root o
+      runOpsM fi ofNat r root rest
+    else do
+      let r ← execOp fi ofNat r o
+      runOpsM fi ofNat r root rest
 
 end run
 
@@ -440,6 +546,17 @@ def limbsOf : Nat → List Nat → List Nat
   | x, sz :: rest => (x % 2 ^ sz) :: limbsOf (x / 2 ^ sz) rest
 
 def b2n (b : Bool) : Nat := if b then 1 else 0
+
+/-- Buffer values and length of the vector whose first variable is `i`. -/
+def vecVals (vals : Array Nat) (i M : Nat) : Option (List Nat × Nat) := do
+  let buf ← (List.range M).mapM (fun j => vals[i + j]?)
+  let len ← vals[i + M]?
+  pure (buf, len)
+
+/-- vec/vector.rs: `InnerValue::value` — the payload `buffer[get_lims(len)]`. -/
+def vecPayload (M A : Nat) (v : List Nat × Nat) : List Nat :=
+  let lims := getLims M A v.2
+  (v.1.drop lims.1).take (lims.2 - lims.1)
 
 /-- The specification: values of the variables produced by one operation, from the values of
 the existing variables and the witness inputs. Returns the new values and the remaining inputs. -/
@@ -557,6 +674,75 @@ def evalOp (fi : FieldInfo) (vals : Array Nat) (inputs : List Nat) (toks : List 
   | ["ysel", cd, a, b] => do
     let (x, y) := (← v a, ← v b)
     out [if (← v cd) = 1 then x else y]
+  -- ---- vectors: the DEFINITION of every operation on the payload `buffer[get_lims(len)]`
+  | ["vassign", m, a, n] => do
+    let (m, a, n) := (← parseNat? m, ← parseNat? a, ← parseNat? n)
+    if inputs.length < n then none else
+    let lims := getLims m a n
+    some (List.replicate lims.1 0 ++ inputs.take n ++ List.replicate (m - lims.2) 0 ++ [n], inputs.drop n)
+  | ["vassignf", m, a, n, f] => do
+    let (m, a, n, f) := (← parseNat? m, ← parseNat? a, ← parseNat? n, ← c f)
+    if inputs.length < n then none else
+    let lims := getLims m a n
+    some (List.replicate lims.1 f ++ inputs.take n ++ List.replicate (m - lims.2) f ++ [n], inputs.drop n)
+  | ["vresize", i, m, _, l] => do
+    let (i, m, l) := (← parseNat? i, ← parseNat? m, ← parseNat? l)
+    let v ← vecVals vals i m
+    out (List.replicate (l - m) 0 ++ v.1 ++ [v.2])
+  | ["vlimits", i, m, a] => do
+    let (i, m, a) := (← parseNat? i, ← parseNat? m, ← parseNat? a)
+    let v ← vecVals vals i m
+    let lims := getLims m a v.2
+    out [lims.1, lims.2]
+  | ["vpad", i, m, a] => do
+    let (i, m, a) := (← parseNat? i, ← parseNat? m, ← parseNat? a)
+    let v ← vecVals vals i m
+    let lims := getLims m a v.2
+    out ((List.range m).map (fun j => b2n (¬ (lims.1 ≤ j ∧ j < lims.2))))
+  | ["vtrim", i, m, a, n] => do
+    let (i, m, a, n) := (← parseNat? i, ← parseNat? m, ← parseNat? a, ← parseNat? n)
+    let v ← vecVals vals i m
+    if v.2 < n then none else
+    -- values as the honest synthesis computes them (fillers included: the old buffer shifted by
+    -- `n mod A`, re-aligned by `A` when the trailing padding would reach `A`); that the PAYLOAD of
+    -- the result is the old payload without its first `n` elements is checked by the harness on
+    -- `InnerValue::value` and proved in `trim_index_correct`
+    let (r, t) := (v.2 % a, n % a)
+    let adjust : Bool := r ≠ 0 ∧ r ≤ t
+    let buffer := List.replicate a 0 ++ v.1.drop t ++ List.replicate t 0
+    out ((List.range m).map (fun j => if adjust then buffer.getD j 0 else buffer.getD (a + j) 0)
+      ++ [v.2 - n])
+  | ["viseq", i, j, m, a] => do
+    let (i, j, m, a) := (← parseNat? i, ← parseNat? j, ← parseNat? m, ← parseNat? a)
+    out [b2n (vecPayload m a (← vecVals vals i m) = vecPayload m a (← vecVals vals j m))]
+  | ["visneq", i, j, m, a] => do
+    let (i, j, m, a) := (← parseNat? i, ← parseNat? j, ← parseNat? m, ← parseNat? a)
+    out [b2n (vecPayload m a (← vecVals vals i m) ≠ vecPayload m a (← vecVals vals j m))]
+  | ["viseqf", i, m, a, cs] => do
+    let (i, m, a, cs) := (← parseNat? i, ← parseNat? m, ← parseNat? a, ← parseNatList? cs)
+    out [b2n (vecPayload m a (← vecVals vals i m) = cs.map (· % p))]
+  | ["visneqf", i, m, a, cs] => do
+    let (i, m, a, cs) := (← parseNat? i, ← parseNat? m, ← parseNat? a, ← parseNatList? cs)
+    out [b2n (vecPayload m a (← vecVals vals i m) ≠ cs.map (· % p))]
+  | ["vaeq", _, _, _, _] | ["vaneq", _, _, _, _] | ["vaeqf", _, _, _, _] | ["vaneqf", _, _, _, _] => out []
+  | _ => none
+
+/-- The map operations against the CPU reference of the map (`mapRoot`, `mapLookup`): the state is
+the list of entries inserted so far. -/
+def evalMapOp (fi : FieldInfo) (vals : Array Nat) (entries : List (Nat × Nat)) (toks : List String) :
+    Option (List Nat × List (Nat × Nat)) := do
+  match toks with
+  | ["minit", pairs] =>
+    let es := (← parseTerms? pairs).map (fun e => (e.1 % fi.p, e.2 % fi.p))
+    pure ([mapRoot fi.p es], es)
+  | ["mget", k] =>
+    let key ← vals[(← parseNat? k)]?
+    pure ([mapLookup entries key], entries)
+  | ["minsert", k, v] =>
+    let key ← vals[(← parseNat? k)]?
+    let value ← vals[(← parseNat? v)]?
+    let es := entries ++ [(key, value)]
+    pure ([mapRoot fi.p es], es)
   | _ => none
 
 def evalOps (fi : FieldInfo) (vals : Array Nat) (inputs : List Nat) :
@@ -565,5 +751,17 @@ def evalOps (fi : FieldInfo) (vals : Array Nat) (inputs : List Nat) :
   | o :: rest => do
     let (news, inputs) ← evalOp fi vals inputs o
     evalOps fi (news.foldl (fun a x => a.push x) vals) inputs rest
+
+/-- `evalOps` for programs that may contain map operations. -/
+def evalOpsM (fi : FieldInfo) (vals : Array Nat) (inputs : List Nat) (entries : List (Nat × Nat)) :
+    List (List String) → Option (Array Nat)
+  | [] => if inputs.isEmpty then some vals else none
+  | o :: rest =>
+    if isMapName (o.headD "") then do
+      let (news, entries) ← evalMapOp fi vals entries o
+      evalOpsM fi (news.foldl (fun a x => a.push x) vals) inputs entries rest
+    else do
+      let (news, inputs) ← evalOp fi vals inputs o
+      evalOpsM fi (news.foldl (fun a x => a.push x) vals) inputs entries rest
 
 end MidnightZK.C04
